@@ -8,7 +8,7 @@ use oxidd::util::num::{F64, Natural, Saturating};
 use oxidd::util::{FxHasher, SatCountCache};
 use oxidd::BooleanFunction;
 use proptest::prelude::*;
-use serde_json::json;
+use serde_json::{Value, json};
 
 use crate::build::*;
 use crate::c02::{all256, order_from_keys, tt_from_words};
@@ -549,8 +549,147 @@ fn rand_job<K: BoolKind>(seed: u64, cases: u32, rep: &mut Report) {
     let _ = order_from_keys;
 }
 
+// ---------------------------------------------------------------------------
+// stateful: one set of count caches reused across a history of counts with changing `vars`,
+// collections, reorderings and handle replacement (recycled node ids)
+// ---------------------------------------------------------------------------
+
+#[derive(Clone, Debug, serde::Serialize, serde::Deserialize)]
+enum SOp {
+    /// count function i with varsets[j]
+    Count(u8, u8),
+    Gc,
+    Reorder(Vec<u16>),
+    /// drop function i and put the function with this table in its place
+    Replace(u8, u16),
+}
+
+#[derive(Clone, Debug, serde::Serialize, serde::Deserialize)]
+struct SCase {
+    tables: Vec<u16>,
+    cache_all: bool,
+    ops: Vec<SOp>,
+}
+
+fn sstrategy() -> impl Strategy<Value = SCase> {
+    let op = prop_oneof![
+        10 => (0u8..6, 0u8..4).prop_map(|(i, j)| SOp::Count(i, j)),
+        3 => Just(SOp::Gc),
+        2 => proptest::collection::vec(any::<u16>(), 4).prop_map(SOp::Reorder),
+        3 => (0u8..6, any::<u16>()).prop_map(|(i, t)| SOp::Replace(i, t)),
+    ];
+    (proptest::collection::vec(any::<u16>(), 6), any::<bool>(), proptest::collection::vec(op, 4..40)).prop_map(|(tables, cache_all, ops)| SCase { tables, cache_all, ops })
+}
+
+fn scheck<K: BoolKind>(c: &SCase) -> Result<u64, String> {
+    const N: u32 = 4;
+    let mr = mk_manager::<K>(N, &[0, 1, 2, 3], 1 << 12, 1 << 8, 1);
+    let vs = vars::<K>(&mr, N);
+    let build = |t: u16| from_shannon::<K>(&mr, &vs, &TT::from_u64(N, t as u64), &mut Default::default());
+    let mut tables = c.tables.clone();
+    let mut fns: Vec<K::F> = tables.iter().map(|&t| build(t)).collect();
+    let mut caches = Caches::new(c.cache_all);
+    let varsets: [u32; 4] = if K::KIND == BKind::Zbdd { [N, N, N, N] } else { [N, N + 1, N + 3, 70] };
+    // pattern statistics: a count whose cache saw a collection AND another `vars` since the last
+    // count with the same `vars`
+    let (mut last_vars, mut events, mut interesting) = (None::<u32>, 0u32, 0u64);
+    for (k, op) in c.ops.iter().enumerate() {
+        match op {
+            SOp::Count(i, j) => {
+                let (i, vars) = (*i as usize, varsets[*j as usize]);
+                check_count(&fns[i], tables[i].count_ones() as u64, N, vars, &mut caches, tables[i] == 0).map_err(|m| format!("{m} [step {k}: {op:?} on table {:04x}, caches reused across the history]", tables[i]))?;
+                if events > 0 && last_vars.is_some() && last_vars != Some(vars) {
+                    interesting += 1;
+                }
+                if last_vars != Some(vars) {
+                    events = 0;
+                }
+                last_vars = Some(vars);
+            }
+            SOp::Gc => {
+                K::gc(&mr);
+                events += 1;
+            }
+            SOp::Reorder(keys) => {
+                let order = order_from_keys(N, keys);
+                K::set_var_order(&mr, &order, true);
+                events += 1;
+            }
+            SOp::Replace(i, t) => {
+                let i = *i as usize;
+                tables[i] = *t;
+                fns[i] = build(*t);
+            }
+        }
+    }
+    Ok(interesting)
+}
+
+fn stateful_job<K: BoolKind>(seed: u64, cases: u32, rep: &mut Report) {
+    let strat = sstrategy();
+    let mut nt = 0u64;
+    let mut sample = None;
+    let out = crate::pt::run2(
+        seed,
+        cases,
+        &strat,
+        |c| progress(&json!({"sig": format!("C12/{}/stateful/crash", K::NAME), "case": {"kind": K::NAME, "stateful": c}}).to_string()),
+        |c, r: &Result<u64, String>| {
+            if let Ok(i) = r {
+                if *i > 0 {
+                    nt += 1;
+                    if sample.is_none() {
+                        sample = Some(json!({"kind": K::NAME, "stateful": c}));
+                    }
+                }
+            }
+        },
+        scheck::<K>,
+    );
+    rep.evaluations += out.cases * 40;
+    rep.nontrivial += nt;
+    rep.class_n(&format!("{}.stateful_cache_histories", K::NAME), out.cases);
+    rep.class_n(&format!("{}.stateful_histories_with_gc_or_reorder_between_counts_with_different_vars", K::NAME), nt);
+    if let Some(s) = sample {
+        rep.sample(s);
+    }
+    if let Some((c, msg)) = out.failure {
+        rep.viol(format!("C12/{}/stateful/{}", K::NAME, crate::hrun::category(&msg)), msg, json!({"kind": K::NAME, "stateful": c}));
+    }
+}
+
 pub fn run(cfg: &Cfg) -> i32 {
     let start = Instant::now();
+    if let Some(path) = &cfg.replay {
+        let v: Value = serde_json::from_str(&std::fs::read_to_string(path).expect("replay file")).expect("json");
+        if let Ok(c) = serde_json::from_value::<SCase>(v["case"]["stateful"].clone()) {
+            let kind = v["case"]["kind"].as_str().unwrap_or("bdd").to_string();
+            let out = isolated(120, |w| {
+                let r = match kind.as_str() {
+                    "bdd" => scheck::<BddK>(&c),
+                    "bcdd" => scheck::<BcddK>(&c),
+                    _ => scheck::<ZbddK>(&c),
+                };
+                let _ = writeln!(w, "{}", json!({"ok": r.is_ok(), "msg": r.err()}));
+            });
+            let verdict: Option<Value> = out.lines.iter().filter_map(|l| serde_json::from_str(l).ok()).find(|v: &Value| v.get("ok").is_some());
+            return match (out.end, verdict) {
+                (End::Exit(0), Some(v)) if v["ok"].as_bool() == Some(true) => {
+                    println!("replay: case passes");
+                    0
+                }
+                (End::Timeout, _) => {
+                    println!("INCONCLUSIVE: watchdog");
+                    2
+                }
+                (e, v) => {
+                    println!("VIOLATION property=C12 replay={path}\n  what: {}", v.and_then(|v| v["msg"].as_str().map(|s| s.to_string())).unwrap_or(format!("crash: {e:?}")));
+                    1
+                }
+            };
+        }
+        // other suites: the campaign is replayed with the recorded seed (see main.rs)
+    }
     let perms = permutations(3);
     let mut jobs: Vec<Box<dyn FnMut(&mut dyn Write) + '_>> = vec![];
     let mut names = vec![];
@@ -578,6 +717,16 @@ pub fn run(cfg: &Cfg) -> i32 {
                 jobs.push(Box::new(move |w: &mut dyn Write| {
                     let mut rep = Report::default();
                     exh3::<$K>(&order, oi % 2 == 0, &mut rep);
+                    rep.emit(w);
+                }));
+            }
+            for sh in 0..cfg.t(1, 3) {
+                let seed = mix(cfg.seed ^ (0xc12_a00 + $salt * 100 + sh as u64));
+                let cases = cfg.t(1500, 20000);
+                names.push(format!("stateful/{}/{}", <$K>::NAME, sh));
+                jobs.push(Box::new(move |w: &mut dyn Write| {
+                    let mut rep = Report::default();
+                    stateful_job::<$K>(seed, cases, &mut rep);
                     rep.emit(w);
                 }));
             }
